@@ -49,6 +49,8 @@ class Fam:
     def template(self, name):
         if name not in self.text:
             raw = open(os.path.join(core.VERIF, "contracts", name)).read()
+            # placeholders of the per-overload section (filled in by add_overloads): neutral defaults for the shared instantiation
+            raw = raw.replace("@@SIG@@", r'detail::AdditionProxy\s+operator\+\s*\(').replace("@@NTH@@", "0")
             self.tpl[name] = raw.split("\n")
             self.text[name] = extract.instantiate(raw, self.rep)
         return self.text[name]
@@ -90,7 +92,36 @@ class Fam:
         ct = self.template("guards_l1.c")
         for g in GUARDS:
             self.jobs.append((l1.Job("guard." + g, ct, "h_" + g, enforce=g, replace=["sq_SUTrace"] if g == "op_dot" else [], includes=INC, timeout=300,
-                                     function_label="entry point " + g, where="include/SQuIDS/SUNalg.h"), "guards_l1.c", "C14 C15"))
+                                     function_label="entry point " + g, where="include/SQuIDS/SUNalg.h"), "guards_l1.c", "C01 C08 C09 C14 C15"))
+        self.add_overloads()
+
+    def add_overloads(self):
+        """one generic job per binary operator+ / operator- overload that SUNalg.h defines (also ones added later): contract derived from the signature"""
+        hdr = extract.strip_comments(core.repo_read("include/SQuIDS/SUNalg.h"))
+        raw = open(os.path.join(core.VERIF, "contracts", "guards_l1.c")).read()
+        n_any = len(re.findall(r'\boperator\s*[-+]\s*\(\s*(?:const\s+)?SU_vector\s*&', hdr))
+        found = 0
+        for op, fam, proxy, comm in (("\\+", "F_Addition", "AdditionProxy", 1), ("-", "F_Subtraction", "SubtractionProxy", 0)):
+            sig = r'detail::%s\s+operator\s*%s\s*\(\s*(?:const\s+SU_vector&|SU_vector&&)\s*other\s*\)' % (proxy, op)
+            ms = list(re.finditer(sig + r'\s*(const\s*&|&&|const|&)?\s*\{', hdr))
+            for k, m in enumerate(ms):
+                found += 1
+                other_rv = 1 if re.search(r'\(\s*SU_vector&&', m.group(0)) else 0
+                this_rv = 1 if (m.group(1) or "").strip() == "&&" else 0
+                txt = raw.replace("@@SIG@@", sig).replace("@@NTH@@", str(k))
+                if txt not in self.text:
+                    pass
+                ct = extract.instantiate(txt, self.rep)
+                name = "overload.%s.%d" % ("plus" if comm else "minus", k)
+                self.tpl["guards_l1.c#" + name] = txt.split("\n")
+                self.jobs.append((l1.Job(name, ct, "h_op_generic", enforce="op_generic", includes=INC, timeout=300,
+                                         defines=["GEN_OVERLOAD", "GEN_FAMILY=" + fam, "GEN_COMMUTATIVE=%d" % comm, "THIS_RV=%d" % this_rv, "OTHER_RV=%d" % other_rv],
+                                         function_label="SU_vector::operator%s overload #%d (%s other, %s this)" % ("+" if comm else "-", k, "rvalue" if other_rv else "lvalue",
+                                                                                                                  "rvalue" if this_rv else "lvalue"),
+                                         where="include/SQuIDS/SUNalg.h"), "guards_l1.c#" + name, "C01 C08 C09 C14 C15"))
+        self.rep.rule("overloads.binary_plus_minus", found)
+        if found != n_any:
+            raise core.ExtractionError("SUNalg.h defines %d binary operator+/- overloads taking an SU_vector but only %d have the expected shape" % (n_any, found))
 
     def add_kernels(self, fams=None):
         fired = {}
